@@ -11,7 +11,7 @@ NAIVE_LOCAL = "datetime::DateTime::<Tz>::naive_local"
 def run(chk, tier):
     P = Prog("default")
     chk.configs.add("default")
-    for r in (r_guards, r_digits, r_basis, r_subsecs, r_unchanged, r_rounding_map, r_absint):
+    for r in (r_guards, r_digits, r_basis, r_subsecs, r_unchanged, r_rounding_map, r_error_text, r_absint):
         chk.guarded(r, P, tier)
     chk.assume("which multiple is returned, tie breaking and idempotence are numerical and NOT decided")
     return {
@@ -300,3 +300,26 @@ def r_rounding_map(chk, P, tier):
         chk.ok("value")
     for cls, (a, got, w) in sorted(bad.items()):
         chk.bad(cls, "%s: (stamp / nanosecond, span / digits) = %s folds to a correction of %s, exact arithmetic gives %s" % (cls, a, got, w), loc=P.loc("round::duration_round"))
+
+
+def r_error_text(chk, P, tier):
+    """the failure that is reported is named for what exceeded what: the Display text of RoundingError::<Subject>Exceeds<Object> begins with the subject (`duration ...`,
+    `timestamp ...`) - two variants must not carry each other's message"""
+    import re
+    chk.rule("MATCH.error_text", "the Display text of each RoundingError variant starts with the subject of its name (duration / timestamp)", floor=3)
+    fn = "<round::RoundingError as std::fmt::Display>::fmt"
+    vs = P.adts["round::RoundingError"]["variants"]
+    got = {}
+    for p in Sym(P, fn).paths():
+        if p.end[0] != "return":
+            continue
+        d = [c for c in p.conds if c[0][0] == "switch" and c[1][0] == "discr"]
+        strs = [const_of(x) for x in walk_terms(p.ret) if x[0] == "const" and isinstance(const_of(x), str)]
+        if len(d) == 1 and not isinstance(d[0][2], tuple) and strs:
+            got[d[0][2]] = strs[0]
+    for v in vs:
+        subject = re.findall("[A-Z][a-z]*", v["name"])[0].lower()
+        txt = got.get(v["discr"])
+        if txt is None:
+            raise AnchorLost("RoundingError Display: no text for " + v["name"])
+        chk.expect(txt.lower().startswith(subject), v["name"], "RoundingError::%s is displayed as `%s` (expected a text about the %s)" % (v["name"], txt, subject), loc=P.loc(fn))
